@@ -268,11 +268,13 @@ EvEnd(kind, named, cnt) ==
   /\ flags' = flags
        \cup Flag(Busy # {}, "left_running")                                              \* C12
        \cup Flag(phase # "fin", "no_stop_all")
-       \cup Flag((MonFailed > cf.maxfail) # (kind = "failure"), "failure_limit")         \* C13
+       \cup Flag(kind \in {"normal", "failure"} /\ (MonFailed > cf.maxfail) # (kind = "failure"), "failure_limit")   \* C13
        \cup Flag(kind = "failure" /\ (named \notin Trials \/ wst[named] # "fail"), "failure_not_named")   \* C13
        \cup Flag(kind = "normal" /\ ~stopHeld /\ ~exh, "ended_early")                    \* C12
        \cup Flag(cf.ckind = "started" /\ nstart > cf.k + cf.nw, "overshoot")             \* C12
-       \cup Flag(cnt # <<>> /\ cnt # <<nstart, NumLife({"completed"}), NumLife({"failed"}),
+       \* (a run aborted in the middle of an iteration by "completed without metrics" has not
+       \*  updated its status yet: counters are judged on normal and failure-limit ends)
+       \cup Flag(kind \in {"normal", "failure"} /\ cnt # <<>> /\ cnt # <<nstart, NumLife({"completed"}), NumLife({"failed"}),
                                       NumLife({"completed", "stopped", "failed"})>>, "counters")   \* C12
   /\ phase' = "done"
   /\ UNCHANGED <<envV, dl, life, dec, ps, ck, rmv, nstart, nhand, stopHeld, exh>>
@@ -302,6 +304,7 @@ CountersMatch       == NoFlag("counters")
 \* C13
 FailureContained    == NoFlag("error_not_failed") /\ NoFlag("resume_failed_run")
 FailureLimit        == NoFlag("failure_limit") /\ NoFlag("failure_not_named")
+FailureNotifiedOnce == NoFlag("protocol_error")
 \* C20
 DeleteOnlyWhenDead  == NoFlag("delete_live")
 CopySourceExists    == NoFlag("copy_missing")
@@ -338,7 +341,8 @@ ImplStopCondition == ImplCrit \/ TssCount({"Failed"}) > cf.maxfail
 \* stop_condition_reached = self._stop_condition()   (before the loop, and at the end of each iteration)
 T_StopCond ==
   /\ pc \in {"stopcond0", "stopcond"}
-  /\ \E b \in (IF cf.ckind = "script" THEN {x \/ TssCount({"Failed"}) > cf.maxfail : x \in BOOLEAN}
+  \* a scripted criterion is monotone (as every count / time based criterion is)
+  /\ \E b \in (IF cf.ckind = "script" THEN {x \/ stopHeld \/ TssCount({"Failed"}) > cf.maxfail : x \in BOOLEAN}
                                         ELSE {ImplStopCondition}) :
         /\ EvStopCrit(b) /\ stopReached' = b
   /\ pc' = "loopcheck"
@@ -525,6 +529,9 @@ T_Step ==
 Next == T_Step \/ W_Step
 
 \* C12 liveness: with fair workers and a fair tuner every run ends
-Fairness == WF_vars(T_Step) /\ \A t \in Trials : SF_vars(ObsPoint /\ W_Exit(t) /\ UNCHANGED <<cf, progV>>)
+\* a worker keeps reporting and finally exits; observation points recur, hence strong fairness
+Fairness == /\ WF_vars(T_Step)
+            /\ \A t \in Trials : /\ SF_vars(ObsPoint /\ W_Exit(t) /\ UNCHANGED <<cf, progV>>)
+                                  /\ SF_vars(ObsPoint /\ W_Emit(t) /\ UNCHANGED <<cf, progV>>)
 Terminates == <>(pc = "done")
 =============================================================================
